@@ -677,6 +677,20 @@ func genTree(r *RNG, leaves int, maxSeg int, leaf func() *Node) *Node {
 					n.Op = prev.Op
 					n.Lit = la
 				}
+			} else if len(usedLeaves) > 0 && n.T == NCmp && r.Chance(1, 14) {
+				// the same comparison on an attribute whose name differs from an earlier one only in LETTER CASE (attribute
+				// names are case-sensitive map keys, keywords and string comparisons are not): `Tier eq "gold" or tier eq "gold"`
+				prev := pick(r, usedLeaves)
+				p2 := append([]string(nil), prev.Path...)
+				i := r.Intn(len(p2))
+				fl := strings.ToUpper(p2[i][:1])
+				if fl == p2[i][:1] {
+					fl = strings.ToLower(fl)
+				}
+				if v := fl + p2[i][1:]; v != p2[i] && !keywords[v] {
+					p2[i] = v
+					n.Path, n.Op, n.Lit = p2, prev.Op, prev.Lit
+				}
 			} else if len(used) > 0 && r.Chance(1, 6) {
 				p := pick(r, used)
 				switch {
